@@ -21,6 +21,11 @@ func init() {
 					Type: "symbol|lambda",
 					Text: "The function to call.",
 				},
+				{
+					Name: "arg",
+					Type: "object",
+					Text: "The first argument to the _function_ or, when no _args_ follow, the _list_ of all the arguments.",
+				},
 				{Name: "&rest"},
 				{
 					Name: "args",
